@@ -46,7 +46,7 @@ fn small_foreign(i: u32, ic: u8, levels: u8) -> Vec<u8> {
         entries,
         contents,
         placement: (i % 3) as u8,
-        layout: Layout { order: [0, 1, 2, 3], gaps: [0, 0, 0, 0, 0], ic, levels, fanout: 2, mixed: false, shuffle_leaves: false, empty_meta: i % 5 == 0, seed: u64::from(i), loose_ptr: false, kind_coincidence: false, strength: 0 },
+        layout: Layout { order: [0, 1, 2, 3], gaps: [0, 0, 0, 0, 0], ic, levels, fanout: 2, mixed: false, shuffle_leaves: false, empty_meta: i % 5 == 0, seed: u64::from(i), loose_ptr: false, kind_coincidence: false, strength: 0, unknown_counters: 0 },
         set: Settings::plain(ic),
         stored: [-1_800_000_000, -850_000_000, 1_800_000_000, 850_000_000, 21, -21],
         meta: Meta { kind: 1, seed: 5, n: 1 },
